@@ -48,6 +48,40 @@ def followup_scenarios(rng, n):
     return scs
 
 
+def fault_retry_scenarios(rng, n):
+    """the hooks of a mnemonic survive an instruction of that mnemonic that FAILS: the run continues with further
+    instructions of the same mnemonic (A), or the machine is repaired and the same instruction is executed again (B)"""
+    scs = []
+    for k in range(n):
+        regs = [rng.choice([0, 1, 2, rng.getrandbits(64)]) for _ in xc.GPRS]
+        pre = c11.pre_actions(rng, None, regs, flags=rng.choice([0, 0x40, 0x1]))
+        nh = rng.choice([1, 2, 3])
+        if k % 2 == 0:
+            insns = [{"t": rng.choice(["nop", "mov_rcx"])} if rng.random() < 0.5 else {"t": "mov_rax", "imm": 3}, {"t": "fault"}]
+            insns += [{"t": rng.choice(["mov_rax", "mov_rcx", "nop", "fault", "inc_rcx"]), "imm": 1} for _ in range(rng.choice([2, 3, 5]))]
+            p = xc.Program(insns)
+            hs = [xc.hook_action(h + 1, rng.choice(["before", "after", "before"]), "Mov", "unhandled", try_register=rng.random() < 0.3) for h in range(nh)]
+            body = [{"op": "step"} for _ in range(len(insns) + 1)]
+            scs.append(xc.scenario(f"fr{k}", p, pre + hs, body))
+        else:
+            kind = rng.choice(["call32", "push_rax"])
+            insns = [{"t": "nop"}, {"t": kind, "tgt": 3} if kind == "call32" else {"t": kind}, {"t": "nop"}, {"t": "nop"}, {"t": "nop"}]
+            p = xc.Program(insns)
+            mn = xc.T[kind][2]
+            hs = [xc.hook_action(h + 1, rng.choice(["before", "after", "before"]), mn, "unhandled", try_register=rng.random() < 0.3) for h in range(nh)]
+            # the stack is the last pre-action's area: find init_stack's index to refer to the address it returned
+            acts_before = 1 + len(pre) + len(hs)          # "new" + pre + hooks
+            istack = 1 + [i for i, a in enumerate(pre) if a["op"] == "init_stack"][0]
+            body = [{"op": "step"},
+                    {"op": "reg_write", "w": 64, "reg": "RSP", "val": 0x70000000},          # stack switched to unmapped memory
+                    {"op": "step"},                                                           # the stack instruction fails
+                    {"op": "reg_write", "w": 64, "reg": "RSP", "val": {"ref": istack, "plus": 0x100}},   # repaired
+                    {"op": "reg_write", "w": 64, "reg": "RIP", "val": p.addr[1]},
+                    {"op": "step"}, {"op": "step"}]
+            scs.append(xc.scenario(f"fr{k}", p, pre + hs, body))
+    return scs
+
+
 def run(tier, seed):
     rep = vlib.Report(PROP, tier, seed, "model_checking")
     rng = random.Random(seed)
@@ -60,6 +94,7 @@ def run(tier, seed):
         sc2, refs = c11.random_scenarios(rng, 100 if q else 2000, hooks_fn=hooks_for, fault_p=0.04, syscall_p=0.08)
         n2, s2 = xc.validate(sc2, wd, "rnd", rep, 8 if q else 14, refs=refs, owner=PROP)
         sc3 = followup_scenarios(rng, 150 if q else 2500)
+        sc3 += fault_retry_scenarios(rng, 80 if q else 1200)
         n3, s3 = xc.validate(sc3, wd, "fol", rep, 8 if q else 14, owner=PROP)
         cfgs = {json.dumps([(a["when"], a["mnem"], a["ret"], a["stop"]) for a in s["actions"] if a["op"] == "hook"]) for s in sc1 + sc2 + sc3}
         rep.cov.update({
@@ -68,7 +103,8 @@ def run(tier, seed):
             "distinct_nontrivial": len(cfgs),
             "rule": "case = one step with hooks; distinct = distinct hook configurations (sequence of (phase, mnemonic, outcome, stop)); "
                     "model configurations: every sequence of <= 2 hooks of the menu around a 2-instruction program; random: 1-6 hooks on "
-                    "own/foreign mnemonics over random programs, with registrations between steps and from inside hooks",
+                    "own/foreign mnemonics over random programs, with registrations between steps and from inside hooks; hooked instructions that "
+                    "fail, followed by further instructions of the mnemonic or by a repair and a second execution",
             "samples": [xc.strip(sc1[len(sc1) // 2]), xc.strip(sc3[0])],
         })
         rep.assumptions += ["TLC evaluates the specification correctly", "native (Rust) hooks only; the JS hook path exists only on wasm32",
